@@ -200,16 +200,24 @@ class Client(base_client.BaseClient):
         except ValueError:
             raise exceptions.ConnectionError(
                 'Unexpected response from server') from None
-        open_packet = p.packets[0]
-        if open_packet.packet_type != packet.OPEN:
+        open_packet = p.packets[0] if p.packets else None
+        if open_packet is None or open_packet.packet_type != packet.OPEN:
             raise exceptions.ConnectionError(
                 'OPEN packet not returned by server')
         self.logger.info(
             'Polling connection accepted with ' + str(open_packet.data))
-        self.sid = open_packet.data['sid']
-        self.upgrades = open_packet.data['upgrades']
-        self.ping_interval = int(open_packet.data['pingInterval']) / 1000.0
-        self.ping_timeout = int(open_packet.data['pingTimeout']) / 1000.0
+        try:
+            sid = open_packet.data['sid']
+            upgrades = open_packet.data['upgrades']
+            ping_interval = int(open_packet.data['pingInterval']) / 1000.0
+            ping_timeout = int(open_packet.data['pingTimeout']) / 1000.0
+        except (TypeError, KeyError, ValueError):
+            raise exceptions.ConnectionError(
+                'Unexpected OPEN packet from server') from None
+        self.sid = sid
+        self.upgrades = upgrades
+        self.ping_interval = ping_interval
+        self.ping_timeout = ping_timeout
         self.current_transport = 'polling'
         self.base_url += '&sid=' + self.sid
 
